@@ -128,6 +128,23 @@ def append_inside(b, chain, junk):
     return new
 
 
+def replace_tlv(b, chain, new_tlv):
+    """Replace the whole innermost TLV of ``chain`` by ``new_tlv`` and fix up the enclosing definite lengths."""
+    def enc_len(n):
+        if n < 0x80:
+            return bytes([n])
+        k = (n.bit_length() + 7) // 8
+        return bytes([0x80 | k]) + n.to_bytes(k, "big")
+    off, hl, length = chain[-1]
+    new = b[:off] + new_tlv + b[off + hl + length:]
+    delta = len(new_tlv) - (hl + length)
+    for (o, h, l) in reversed(chain[:-1]):
+        enc = enc_len(l + delta)
+        new = new[:o + 1] + enc + new[o + h:]
+        delta += len(enc) - (h - 1)
+    return new
+
+
 def chains(b):
     """For every header found by ``headers`` the chain of enclosing headers (outermost first)."""
     hs = headers(b)
